@@ -228,7 +228,13 @@ def run_set(s, stage_dir, tier):
             res["undecided"] = "could not list loops for unwind_all"
             return res
         s = dict(s)
-        uw = ["--unwindset", ",".join("%s:%d" % (n, k) for n in names), "--unwinding-assertions"]
+        over = s.get("unwind_over", {})     # per-loop overrides by name prefix, e.g. {"strncpy.": 101}
+        def _bound(nm):
+            for pre, kk in over.items():
+                if nm.startswith(pre):
+                    return kk
+            return k
+        uw = ["--unwindset", ",".join("%s:%d" % (n, _bound(n)) for n in names), "--unwinding-assertions"]
         if not s.get("dfcc", s["mode"] in ("U", "L")):
             uw = ["--unwind", str(s.get("rec_unwind", 2))] + uw        # plain harness: the global bound covers recursion, loops keep their own bound
         s["cbmc"] = list(s.get("cbmc", [])) + uw
